@@ -233,7 +233,7 @@ Definition starts_conn (l : list (list ev)) : Prop :=
 Lemma expected_starts_conn k a : starts_conn (expected k a).
 Proof.
   unfold expected, starts_conn. destruct (a_init a && a_sub a); [|exact Logic.I].
-  destruct (a_items a) as [|[n| | |] r]; cbn; unfold drop_empty; cbn; eauto; exact Logic.I.
+  destruct (a_items a) as [|[n| | | |] r]; cbn; unfold drop_empty; cbn; eauto; exact Logic.I.
 Qed.
 
 (** events that neither deliver anything nor start / end a stream *)
@@ -383,3 +383,40 @@ Theorem at_most_one_after_close_refuted :
   model_accepts false kf1_l kf1_tr = inl 15 /\
   check_case (false, true, kf1_l, kf1_tr_fixed) = [].
 Proof. repeat split; vm_compute; reflexivity. Qed.
+
+(** * Round 5v: Close inside the teardown of the previous transport, quiet streams *)
+
+Definition rs_l : list attempt :=
+  [ {| a_init := true; a_sub := true; a_items := [IMsg 1; IEof] |};
+    {| a_init := true; a_sub := true; a_items := [IBlockQ] |} ].
+
+(** the re-subscribe has connected and is tearing down transport 0 when Close is called *)
+Definition rs_tr : list ev :=
+  [ESubCall; EFactory 0; EImplSub 0; ERecv 0 0; EConn; EUpd 0 0 0; ERecv 0 1; EDisc; EReset;
+   EFactory 1; EImplSub 1; EImplClose 0; ECloseCall].
+
+(** hypotheses of [close_subscribe_terminate_rc] with a quiet stream: a reachable
+    re-subscribe state, Close's critical section done, the subscriber still
+    holding c.mu inside the teardown *)
+Example ex_resub_state :
+  exists s, reach true (sc_of rs_l) s /\ r_closed s = true /\ resub_ok s /\ s_pc s = SInstall2.
+Proof.
+  destruct (find (fun s => r_closed s && match s_pc s with SInstall2 => true | _ => false end
+                           && match c_pc s with CBase => true | _ => false end
+                           && match b_impl s with Impl _ => true | NoImpl => false end)
+              (ex_states true rs_l rs_tr)) as [s|] eqn:E; [|vm_compute in E; discriminate].
+  apply find_reach in E. destruct E as [Hr Hf]. exists s.
+  apply andb_prop in Hf. destruct Hf as [Hf H4]. apply andb_prop in Hf. destruct Hf as [Hf H3].
+  apply andb_prop in Hf. destruct Hf as [H1 H2].
+  split; [exact Hr|]. split; [exact H1|]. split.
+  - split.
+    + destruct (b_impl s); [discriminate|discriminate].
+    + right; right. destruct (c_pc s); try discriminate. reflexivity.
+  - destruct (s_pc s); try discriminate. reflexivity.
+Qed.
+
+(** the recording of the unchanged code on that scenario terminates and passes K_P *)
+Example ex_resub_terminates :
+  check_case (true, true, rs_l,
+              rs_tr ++ [ERecv 1 0; EImplClose 1; EImplClose 1; EDisc; ESubRet RCanceled; ECloseRet true]) = [].
+Proof. vm_compute. reflexivity. Qed.
